@@ -248,6 +248,8 @@ def _check_rewrite(m, cls):
 def check_case(m):
     route = m["route"]
     cls = ["route:" + route] + classes(m)
+    if m.get("int_returns") and not str(route).startswith(("potable", "main", "cli")):
+        cls.append("callables_return_ints")
     if m.get("rewrite"):
         return _check_rewrite(m, cls)
     nt = bool(set(cls) & {"elements>=3", "reversed_pair", "zero_filled_pair", "zero_filled_function",
